@@ -139,6 +139,39 @@ def structured_cnf(draw):
 
 
 @st.composite
+def gadget_cnf(draw):
+    """Implication chains and guarded contradictions: decisions propagate several variables at once, conflicts jump
+    back over them and force the parent the other way - search histories that uniform random clauses rarely produce."""
+    n = draw(st.integers(4, 10))
+    vs = list(range(1, n + 1))
+    lit = st.builds(lambda v, s: v if s else -v, st.sampled_from(vs), st.booleans())
+    cl = []
+    for _ in range(draw(st.integers(2, 6))):
+        kind = draw(st.sampled_from(["fan", "fan", "guarded-contradiction", "chain", "at-most-one", "random"]))
+        g = draw(lit)
+        if kind == "fan":  # g -> a, g -> b (, g -> c)
+            for _ in range(draw(st.integers(2, 3))):
+                cl.append([-g, draw(lit)])
+        elif kind == "guarded-contradiction":  # g -> false, through every sign pattern of (p, q)
+            p_, q_ = draw(lit), draw(lit)
+            for sp in (1, -1):
+                for sq in (1, -1):
+                    cl.append([-g, sp * p_, sq * q_])
+        elif kind == "chain":  # (g or not x or h), (g or not h): not g -> not h -> not x
+            x, h = draw(lit), draw(lit)
+            cl.append([g, -x, h])
+            cl.append([g, -h])
+        elif kind == "at-most-one":  # g -> a, g -> b, not a or not b: g is impossible
+            a, b2 = draw(lit), draw(lit)
+            cl += [[-g, a], [-g, b2], [-a, -b2]]
+        else:
+            cl.append([draw(lit) for _ in range(draw(st.integers(2, 3)))])
+    cl = [list(c) for c in draw(st.permutations(cl))]
+    opts = draw(options(big=True))
+    return {"family": "gadget", "clauses": cl, "assumptions": draw(assumptions_for(vs, extra_ok=False)) if draw(st.integers(0, 2)) == 0 else [], "opts": opts}
+
+
+@st.composite
 def deep_cnf(draw, lo=10, hi=13):
     """Few clauses, no pure literals, enumerate everything: thousands of blocking clauses → reduce_db."""
     n = draw(st.integers(lo, hi))
@@ -153,4 +186,4 @@ def deep_cnf(draw, lo=10, hi=13):
 
 def mixed(tier):
     nmax = 40
-    return st.one_of(small_cnf(), small_cnf(), threshold_cnf(nmax), structured_cnf())
+    return st.one_of(small_cnf(), small_cnf(), threshold_cnf(nmax), structured_cnf(), gadget_cnf(), gadget_cnf())
